@@ -8,6 +8,9 @@ sys.stderr = open(os.devnull, "w")
 from glyles import Glycan
 payload = json.load(sys.stdin)
 out = []
+if payload.get("prelude"):
+    from common_impl import failing_prelude
+    failing_prelude()
 for it in payload["items"]:
     try:
         g = Glycan(it["iupac"], **it.get("kw", {}))
